@@ -228,8 +228,15 @@ type c06Local struct {
 
 func (a *c06Local) PublicKey() e2types.PublicKey { return a.key.PublicKey() }
 func (a *c06Local) Sign(_ context.Context, data []byte) (e2types.Signature, error) {
+	if c06Refuse {
+		return nil, errors.New("refused by the account")
+	}
 	return a.key.Sign(data), nil
 }
+
+// c06Refuse makes every account refuse to sign (slashing protection, a locked account, a remote signer that
+// is down) for as long as it is set.
+var c06Refuse bool
 
 // c06RootSigner is the remote signer's side of an account: it is handed the object root and the domain.
 type c06RootSigner interface {
@@ -313,6 +320,9 @@ type c06Ordinary struct {
 
 func (a *c06Ordinary) PublicKey() e2types.PublicKey { return a.key.PublicKey() }
 func (a *c06Ordinary) signRoot(root, domain []byte) (e2types.Signature, error) {
+	if c06Refuse {
+		return nil, errors.New("refused by the remote signer")
+	}
 	msg, err := c06SigningData(root, domain)
 	if err != nil {
 		return nil, err
@@ -383,6 +393,9 @@ func (a *c06Distributed) Participants() map[uint64]string {
 // signRoot: each of the last `threshold` participants signs the signing root with its key share; the
 // client recovers the composite signature (dirk: thresholdSign).
 func (a *c06Distributed) signRoot(root, domain []byte) (e2types.Signature, error) {
+	if c06Refuse {
+		return nil, errors.New("refused by the remote signer")
+	}
 	msg, err := c06SigningData(root, domain)
 	if err != nil {
 		return nil, err
@@ -624,6 +637,8 @@ type c06Req struct {
 	asked   []string
 	done    bool
 	history string
+	refused bool // every account refused to sign during the judged request
+	batch   bool
 }
 
 func (rq *c06Req) domain() phase0.Domain {
@@ -835,6 +850,22 @@ var c06EPs = []c06EP{
 
 // c06Judge is the oracle.  It returns the finding clause and message, or "" if the property holds.
 func c06Judge(rq *c06Req) (clause, msg string) {
+	if rq.refused {
+		// nothing was signed: no signature can be returned.  A single-account request must fail; a batch
+		// request may instead return empty signatures for the accounts that did not sign
+		if rq.err != nil {
+			return "", ""
+		}
+		for i, sg := range rq.sigs {
+			if sg != (phase0.BLSSignature{}) {
+				return "signature-from-refusing-account", fmt.Sprintf("signature %d is not empty although the account refused to sign", i)
+			}
+		}
+		if !rq.batch {
+			return "refusal-reported-as-success", "the account refused to sign but the request reported success (with an empty signature, which verifies under no key)"
+		}
+		return "", ""
+	}
 	if rq.err != nil {
 		return "request-failed", fmt.Sprintf("no signature returned although every account and the domain provider work: %v", rq.err)
 	}
@@ -1031,7 +1062,14 @@ func c06Units(tier string) []hx.Unit {
 						rq.history = fmt.Sprintf(" (after a %s request on the same signer that failed because the domain could not be obtained)", ep.name)
 						dp.asked = nil
 					}
+					// the accounts may refuse the judged request (slashing protection, locked account, signer down)
+					rq.refused, rq.batch = mc.Choose(2) == 1, ep.batch
+					c06Refuse = rq.refused
 					ep.run(context.Background(), svc, slot, rq.accts, rq)
+					c06Refuse = false
+					if rq.refused {
+						rq.desc += " (every account refuses to sign)"
+					}
 					rq.desc += rq.history
 					rq.asked = dp.asked
 					rq.done = true
@@ -1077,7 +1115,71 @@ func c06Units(tier string) []hx.Unit {
 			}
 		}
 	}
+	// a large attestation batch (a node with many validators): 300 ordinary remote accounts, committee indices
+	// that differ from position to position (and between positions 256 apart)
+	{
+		rq := &c06Req{}
+		u := hx.Unit{Name: "C06/attestations/large-batch", Cfg: mc.Config{Fixed: true}, Bound: 0}
+		u.Body = func() {
+			*rq = c06Req{ep: "attestations", batch: true}
+			accts := c06BigRing(300)
+			if mc.Choose(2) == 1 {
+				accts = accts[:256]
+			}
+			rq.accts = accts
+			const slot = phase0.Slot(72)
+			epoch := phase0.Epoch(slot / c06SlotsPerEpoch)
+			br, sr, tr := c06RootSet(0)
+			se := c06SourceEpoch(epoch)
+			cis := make([]phase0.CommitteeIndex, len(accts))
+			for i := range accts {
+				cis[i] = phase0.CommitteeIndex((i*5 + i/256) % 64)
+				data := &phase0.AttestationData{Slot: slot, Index: cis[i], BeaconBlockRoot: br, Source: &phase0.Checkpoint{Epoch: se, Root: sr}, Target: &phase0.Checkpoint{Epoch: epoch, Root: tr}}
+				r, err := data.HashTreeRoot()
+				must(err)
+				rq.roots = append(rq.roots, r)
+			}
+			rq.domType, rq.epoch = c06DomAttester, epoch
+			rq.desc = fmt.Sprintf("SignBeaconAttestations(%d ordinary remote accounts, slot %d, committee of position i = (5i + i/256) mod 64)", len(accts), slot)
+			dp := &c06Domains{}
+			svc, err := standardsigner.New(context.Background(), standardsigner.WithLogLevel(zerolog.Disabled), standardsigner.WithMonitor(nullmetrics.New()), standardsigner.WithClientMonitor(nullmetrics.New()),
+				standardsigner.WithSpecProvider(&specProvider{m: baseSpec(12*time.Second, c06SlotsPerEpoch)}), standardsigner.WithDomainProvider(dp))
+			must(err)
+			rq.sigs, rq.err = svc.SignBeaconAttestations(context.Background(), c06E2(accts), slot, cis, br, se, sr, epoch, tr)
+			rq.asked = dp.asked
+			rq.done = true
+		}
+		u.Check = func(r *mc.Result) mc.Verdict {
+			v := mc.Verdict{Outcome: fmt.Sprintf("attestations/large-batch-%d", len(rq.accts)), Nontrivial: true, Sample: rq.desc}
+			if r.Panic != "" {
+				v.Violation, v.Key = fmt.Sprintf("panic in %s: %s", rq.desc, firstLine(r.Panic)), "C06/attestations/panic"
+			} else if !rq.done {
+				v.Violation, v.Key = "the request did not complete: "+rq.desc, "C06/attestations/incomplete"
+			} else if clause, msg := c06Judge(rq); clause != "" {
+				v.Violation, v.Key = rq.desc+": "+msg, "C06/attestations/"+clause
+			}
+			return v
+		}
+		units = append(units, u)
+	}
 	return units
+}
+
+// c06BigRing returns n ordinary remote accounts with distinct keys (built once).
+var c06Big []*c06Acct
+
+func c06BigRing(n int) []*c06Acct {
+	for len(c06Big) < n {
+		i := len(c06Big)
+		sk := c06Secret('P', byte(i), byte(i>>8))
+		key, err := e2types.BLSPrivateKeyFromBytes(sk.Serialize())
+		must(err)
+		a := &c06Acct{kind: 'O', label: fmt.Sprintf("P%d", i), pub: sk.GetPublicKey()}
+		a.acct = &c06Ordinary{c06Base: c06Base{id: uuid.NewSHA1(uuid.Nil, []byte(fmt.Sprintf("c06-P%d", i))), name: a.label}, key: key}
+		copy(a.pub48[:], a.pub.Serialize())
+		c06Big = append(c06Big, a)
+	}
+	return c06Big[:n]
 }
 
 func init() {
@@ -1087,9 +1189,9 @@ func init() {
 		Rule: "every request = entry point (all ten of signer/standard) x slot (quick 71,72|79,80; thorough also 0,7,8,87; 8 slots per epoch, fork v1->v2 at epoch 10, two forks at epoch 0) " +
 			"x message fields from two-value sets (per position where the caller supplies them per position) " +
 			"x accounts: single-account entry points with a local, an ordinary remote and a distributed remote account; batch entry points with every sequence of length <= 3 (thorough 4) over {ordinary, distributed} remote accounts " +
-			"and homogeneous batches of local accounts of the same lengths, distinct accounts per position and, for sync selection proofs and contributions, also one account per kind repeated; " +
+			"and homogeneous batches of local accounts of the same lengths, distinct accounts per position and, for sync selection proofs and contributions, also one account per kind repeated; one attestation batch of 256 / 300 ordinary remote accounts whose committee indices differ from position to position; " +
 			"accounts hold real BLS keys (distributed: 2-of-3 threshold signing with recovery of the composite signature); each returned signature is verified under the account's validator key against sha256(root_i || domain) with root and domain recomputed from the specifications; " +
-			"x history on the same signer instance: none, an earlier request of the same kind on either side of the fork (slot 79 / 80), or an earlier request that failed because the beacon node could not supply the domain; " +
+			"x accounts sign / every account refuses to sign (a single-account request must then fail; a batch may return empty signatures); x history on the same signer instance: none, an earlier request of the same kind on either side of the fork (slot 79 / 80), or an earlier request that failed because the beacon node could not supply the domain; " +
 			"non-trivial = batch with accounts of both remote kinds, or a slot at the start of an epoch or after the fork; distinct = entry point x account class x fork side",
 		Assumptions: []string{
 			"accounts and the domain provider are fault-free during the judged request, so a returned error is reported as a finding (no signature where the statement requires one); the history request may meet an unavailable beacon node",
